@@ -12,6 +12,7 @@ import (
 	"io"
 	"net"
 	"sync"
+	"sync/atomic"
 	"time"
 
 	"github.com/google/martian/v3/mitm"
@@ -48,6 +49,16 @@ type Endpoint struct {
 	EOFAt    time.Time
 	Notes    []string
 	done     chan struct{}
+	paused   int32 // 1: the reader does not read (the endpoint stops draining its connection)
+}
+
+// Pause stops (or resumes) the reader: a paused endpoint leaves what is sent to it unread.
+func (e *Endpoint) Pause(on bool) {
+	v := int32(0)
+	if on {
+		v = 1
+	}
+	atomic.StoreInt32(&e.paused, v)
 }
 
 // NewEndpoint wraps a connection.
@@ -134,6 +145,9 @@ func (e *Endpoint) Reader() {
 		e.Rec.Emit("dst", "dir", e.RecvDir, "k", pending.kind, "s", int(pending.s), "es", pending.es, "n", 0, "prio", pending.prio, "ok", ok, "cont", pending.cont, "prom", int(pending.promID))
 	}
 	for {
+		for atomic.LoadInt32(&e.paused) == 1 {
+			time.Sleep(2 * time.Millisecond)
+		}
 		f, err := e.Fr.ReadFrame()
 		e.mu.Lock()
 		e.LastRecv = time.Now()
